@@ -66,6 +66,10 @@ func TestVerifC18(t *testing.T) {
 			r.ReplayCase(&c)
 			var x bool
 			runPureCase(r, newRouter(), c, &x)
+		case "histories":
+			var c histCase
+			r.ReplayCase(&c)
+			runHistCase(r, c)
 		case "managed":
 			sectionManaged(t, r)
 		case "answers":
@@ -83,6 +87,9 @@ func TestVerifC18(t *testing.T) {
 	}
 	if want("managed") && r.Mine(2) {
 		sectionManaged(t, r)
+	}
+	if want("histories") {
+		sectionHistories(t, r)
 	}
 	if want("pure") {
 		sectionPure(t, r)
